@@ -30,8 +30,8 @@ from vlib import common
 
 TWO_PI = 2 * math.pi
 # calibrated on the unchanged tree (see ctx.extra["worst_difference"]): emu-sv <= ~1e-9, emu-mps (precision 1e-8) <= ~1e-6
-TOL = {"sv": 1e-6, "mps": 2e-4}
-EN_TOL = {"sv": 1e-5, "mps": 2e-3}
+TOL = {"sv": 1e-6, "mps": 2e-4, "dmrg": 2e-3}
+EN_TOL = {"sv": 1e-5, "mps": 2e-3, "dmrg": 2e-2}
 OP_TOL = 1e-10      # operator identities in float64 (entries O(10)): rounding level 1e-15 * 1e5
 SD_TOL_U = 1e-9     # relative agreement of U under a rigid motion (positions O(10) um, r^-6)
 Z_SCORE = 7.0       # per-outcome two-sided tail < 3e-12; < 1e-6 family-wise over all outcomes of a thorough run
@@ -202,34 +202,97 @@ def transformed_sequence(spec, kind, rng):
 
 
 # ---- running -------------------------------------------------------------------------------------------------------------
-def make_config(backend, with_state=True, interaction_matrix=None):
+NOISE_CHANNELS = ["relaxation", "dephasing", "depolarizing", "eff_pump", "eff_generic"]
+# channels whose dissipator is invariant under rotations about z, i.e. under a constant phase offset (eff_generic is not)
+COVARIANT_CHANNELS = ["relaxation", "dephasing", "depolarizing", "eff_pump"]
+
+
+def base_backend(backend):
+    return backend.split("+")[0]
+
+
+def tol_key(backend):
+    return "dmrg" if backend == "mps+dmrg" else base_backend(backend)
+
+
+def key_name(kind, backend):
+    """finding key: e.g. phase-offset-noisy-sv, rigid-noisy-sv, offset-mps-dmrg, offset-sv"""
+    if kind == "ids":
+        return "qubit-id-type-changes-result"
+    k = "phase-offset" if (kind == "offset" and "+" in backend) else kind
+    if backend.startswith("sv+"):
+        return f"{k}-noisy-sv"
+    if backend == "mps+dmrg":
+        return f"{k}-mps-dmrg"
+    return f"{k}-{backend}"
+
+
+def noise_model(backend):
+    import pulser
+
+    ch = backend.split("+")[1]
+    if ch == "relaxation":
+        return pulser.NoiseModel(relaxation_rate=0.8)
+    if ch == "dephasing":
+        return pulser.NoiseModel(dephasing_rate=1.1)
+    if ch == "depolarizing":
+        return pulser.NoiseModel(depolarizing_rate=0.6)
+    if ch == "eff_pump":      # incoherent pumping g -> r and a diagonal operator: covariant under D_u
+        return pulser.NoiseModel(eff_noise_opers=[np.array([[0, 1.0], [0, 0]]), np.array([[1.0, 0], [0, 0.3]])],
+                                 eff_noise_rates=[0.7, 0.4])
+    return pulser.NoiseModel(eff_noise_opers=[np.array([[0.3, 0.7], [0.1, -0.2]])], eff_noise_rates=[0.9])
+
+
+LEAN = [False]   # set while re-running a case whose full observable list made the backend raise
+
+
+def make_config(backend, n=None, with_state=True, interaction_matrix=None):
     import emu_mps
     import emu_sv
-    from pulser.backend import BitStrings, CorrelationMatrix, Energy, Occupation, StateResult
+    from emu_mps.solver import Solver
+    from pulser.backend import (BitStrings, CorrelationMatrix, Energy, EnergySecondMoment, EnergyVariance, Fidelity,
+                                Occupation, StateResult)
 
     et = [0.5, 1.0]
     obs = [Occupation(evaluation_times=et), CorrelationMatrix(evaluation_times=et), Energy(evaluation_times=et),
+           EnergyVariance(evaluation_times=et), EnergySecondMoment(evaluation_times=et),
            BitStrings(evaluation_times=[1.0], num_shots=1000)]
+    if LEAN[0]:
+        obs = [o for o in obs if not isinstance(o, (EnergyVariance, EnergySecondMoment))]
+        n = None
     if with_state:
         obs.append(StateResult(evaluation_times=[1.0]))
     with warnings.catch_warnings():
         warnings.simplefilter("ignore")
         kw = {} if interaction_matrix is None else {"interaction_matrix": interaction_matrix}
-        if backend == "sv":
+        if base_backend(backend) == "sv":
+            if "+" in backend:
+                kw["noise_model"] = noise_model(backend)
+            if n is not None:   # fidelity with |g...g> (invariant under every relation tested here)
+                ref = emu_sv.DensityMatrix.make(n, gpu=False) if "+" in backend else emu_sv.StateVector.make(n, gpu=False)
+                obs.append(Fidelity(evaluation_times=et, state=ref))
             return emu_sv.SVConfig(observables=obs, dt=10, gpu=False, log_level=logging.CRITICAL, **kw)
+        if backend == "mps+dmrg":
+            kw["solver"] = Solver.DMRG
+        if n is not None and n >= 2:
+            obs.append(Fidelity(evaluation_times=et, state=emu_mps.MPS.make(n, eigenstates=("r", "g"))))
         return emu_mps.MPSConfig(observables=obs, dt=10, precision=1e-8, log_level=logging.CRITICAL, **kw)
 
 
 def dense_state(backend, st):
+    """basis-state weights of the final state"""
     import torch
 
-    if backend == "sv":
-        return st.data.detach().cpu().numpy().reshape(-1)
+    if base_backend(backend) == "sv":
+        d = st.data.detach().cpu()
+        if d.ndim == 2:                                  # density matrix
+            return np.real(torch.diagonal(d).numpy())
+        return np.abs(d.numpy().reshape(-1)) ** 2
     v = torch.ones(1, 1, dtype=torch.complex128)
     for f in st.factors:
         v = torch.tensordot(v, f.to("cpu"), dims=([v.ndim - 1], [0]))
         v = v.reshape(-1, f.shape[2])
-    return v.reshape(-1).numpy()
+    return np.abs(v.reshape(-1).numpy()) ** 2
 
 
 def run_backend(backend, seq, with_state=True, interaction_matrix=None):
@@ -238,20 +301,26 @@ def run_backend(backend, seq, with_state=True, interaction_matrix=None):
     import torch
 
     torch.manual_seed(20290)
-    cfg = make_config(backend, with_state, interaction_matrix)
+    n = len(seq.register.qubit_ids)
+    cfg = make_config(backend, n, with_state, interaction_matrix)
     with warnings.catch_warnings():
         warnings.simplefilter("ignore")
-        cls = emu_sv.SVBackend if backend == "sv" else emu_mps.MPSBackend
+        cls = emu_sv.SVBackend if base_backend(backend) == "sv" else emu_mps.MPSBackend
         res = cls(seq, config=cfg).run()
     out = {"atom_order": list(res.atom_order)}
     for t in (0.5, 1.0):
         out[f"occ@{t}"] = np.array([float(x) for x in res.get_result("occupation", t)])
         out[f"corr@{t}"] = np.array([[float(np.real(complex(x))) for x in row] for row in res.get_result("correlation_matrix", t)])
         out[f"energy@{t}"] = float(res.get_result("energy", t))
+        if "energy_variance" in res.get_result_tags():
+            out[f"evar@{t}"] = float(res.get_result("energy_variance", t))
+            out[f"e2@{t}"] = float(res.get_result("energy_second_moment", t))
+        if "fidelity" in res.get_result_tags():
+            out[f"fid@{t}"] = np.array([float(np.real(complex(res.get_result("fidelity", t))))])
     out["bits"] = dict(res.get_result("bitstrings", 1.0))
     if with_state:
-        psi = dense_state(backend, res.get_result("state", 1.0))
-        out["prob"] = np.abs(psi) ** 2 / float(np.sum(np.abs(psi) ** 2))
+        w = dense_state(backend, res.get_result("state", 1.0))
+        out["prob"] = w / float(np.sum(w))
     return out
 
 
@@ -261,18 +330,20 @@ def compare_runs(backend, a, b2, n, energy_sign=1.0, same_ids=True):
     if same_ids and a["atom_order"] != b2["atom_order"]:
         bad.append(f"atom_order {a['atom_order']} vs {b2['atom_order']}")
     for k in a:
-        if k.startswith(("occ@", "corr@")) or k == "prob":
+        if k.startswith(("occ@", "corr@", "fid@")) or k == "prob":
             if k not in b2:
                 continue
             d = float(np.abs(a[k] - b2[k]).max())
             worst = max(worst, d)
-            if d > TOL[backend]:
+            if d > TOL[tol_key(backend)]:
                 bad.append(f"{k} differs by {d:.3g}")
-        elif k.startswith("energy@"):
-            d = abs(a[k] - energy_sign * b2[k])
-            worst_e = max(worst_e, d)
-            if d > EN_TOL[backend] * n:
-                bad.append(f"{k} differs by {d:.3g}")
+        elif k.startswith(("energy@", "evar@", "e2@")):
+            sign = energy_sign if k.startswith("energy@") else 1.0
+            scale = n if k.startswith("energy@") else n * (1.0 + abs(a[k]))
+            d = abs(a[k] - sign * b2[k])
+            worst_e = max(worst_e, d / (scale / n))
+            if d > EN_TOL[tol_key(backend)] * scale:
+                bad.append(f"{k} differs by {d:.3g} ({a[k]:.6g} vs {b2[k]:.6g})")
     if "prob" in a:
         shots = sum(b2["bits"].values())
         for idx in range(2 ** n):
@@ -288,7 +359,7 @@ def compare_runs(backend, a, b2, n, energy_sign=1.0, same_ids=True):
 def sequence_data(seq, backend="sv", interaction_matrix=None):
     from emu_base import PulserData
 
-    cfg = make_config(backend, with_state=False, interaction_matrix=interaction_matrix)
+    cfg = make_config(backend, None, with_state=False, interaction_matrix=interaction_matrix)
     with warnings.catch_warnings():
         warnings.simplefilter("ignore")
         return list(PulserData(sequence=seq, config=cfg, dt=cfg.dt).get_sequences())[0]
@@ -422,7 +493,7 @@ def metamorphic_case(ctx, spec, kind, backend, seed):
         b2 = run_backend(backend, seq1)
         r0, r1 = reference_occupation(d0), reference_occupation(d1)
         e0, e1 = float(np.abs(a["occ@1.0"] - r0).max()), float(np.abs(b2["occ@1.0"] - r1).max())
-        text = None if max(e0, e1) <= REF_TOL[backend] else f"occupation differs from the dense reference by {max(e0, e1):.3g}"
+        text = None if max(e0, e1) <= REF_TOL[tol_key(backend)] else f"occupation differs from the dense reference by {max(e0, e1):.3g}"
         return {"relation": sd_relation(kind, info, d0, d1), "worst": 0.0, "worst_energy": 0.0, "text": text, "info": info,
                 "occ": a["occ@1.0"].tolist(), "ref_error": max(e0, e1), "negation_effect": float(np.abs(r0 - r1).max()),
                 "negation_effect_emulator": float(np.abs(a["occ@1.0"] - b2["occ@1.0"]).max())}
@@ -444,7 +515,7 @@ def metamorphic_case(ctx, spec, kind, backend, seed):
             "occ": a["occ@1.0"].tolist()}
 
 
-def judge(ctx, spec, kind, backend, seed, r):
+def judge(ctx, spec, kind, backend, seed, r, lean=False):
     ctx.count_case({"kind": kind, "backend": backend, "n": spec["n"], "pulses": len(spec["pulses"]), "seed": seed,
                     "family": spec.get("family", "random"), "ids": [repr(x) for x in qubit_ids(spec)], "phases": [p["phase"] for p in spec["pulses"]],
                     "info": r["info"]}, nontrivial=max(r["occ"]) > 1e-2)
@@ -452,7 +523,7 @@ def judge(ctx, spec, kind, backend, seed, r):
         what = (f"emu-{backend}: {r['text']} (phases negated)" if kind == "negate" else
                 f"emu-{backend}: results change under '{kind}' ({r['info']}): {r['text']}")
         ctx.violation(what, {"spec": spec, "transform": kind, "backend": backend, "seed": seed,
-                             "finding_key": "qubit-id-type-changes-result" if kind == "ids" else f"{kind}-{backend}"})
+                             "lean": lean, "finding_key": key_name(kind, backend)})
 
 
 def run(ctx):
@@ -488,8 +559,8 @@ def run(ctx):
 
     # (a) + falsifier
     rel_ok, rel_detail = True, ""
-    worst = {"sv": 0.0, "mps": 0.0}
-    worst_e = {"sv": 0.0, "mps": 0.0}
+    worst = {"sv": 0.0, "mps": 0.0, "dmrg": 0.0, "sv-noisy": 0.0}
+    worst_e = {"sv": 0.0, "mps": 0.0, "dmrg": 0.0, "sv-noisy": 0.0}
     neg = {"cases": 0, "max_reference_error": 0.0, "max_change_of_occupation_in_reference": 0.0,
            "max_change_of_occupation_in_emulator": 0.0}
     todo = []
@@ -497,7 +568,7 @@ def run(ctx):
         todo.append((spec, kind, backend, seed))
     bases = [gen_spec(ctx.rng) for _ in range(ctx.n(4, 36))] + [gen_echo_spec(ctx.rng) for _ in range(ctx.n(3, 16))]
     fams = ["int", "mixed", "q", "unsorted-int", "digit-str", "unsorted-str", "int"]
-    id_hist = {}
+    id_hist, noisy_hist = {}, {}
     for i, spec in enumerate(bases):
         fam = fams[i % len(fams)]
         spec = with_ids(spec, fam, ctx.rng)            # the base sequence itself carries the labels of its family
@@ -512,19 +583,41 @@ def run(ctx):
                 if kind in ("timerev", "negate") and i % 2 == 1 and not ctx.thorough():
                     continue                           # quick tier: keep the wall time
                 todo.append((spec, kind, backend, ctx.rng.randrange(10 ** 6)))
+        # emu-sv WITH a Lindblad channel (deterministic density-matrix path) and emu-mps DMRG: the relations that remain
+        # symmetries there (dissipation is not time-reversal symmetric; a generic eff_noise operator is not z-rotation
+        # covariant, so it is excluded from the phase-offset relation)
+        ch = NOISE_CHANNELS[i % len(NOISE_CHANNELS)]
+        for kind in [k for k in kinds if k in ("ids", "rigid", "offset", "roundtrip")]:
+            if spec["n"] <= 4:
+                c2 = ch if (kind != "offset" or ch in COVARIANT_CHANNELS) else COVARIANT_CHANNELS[i % len(COVARIANT_CHANNELS)]
+                todo.append((spec, kind, "sv+" + c2, ctx.rng.randrange(10 ** 6)))
+                noisy_hist[c2] = noisy_hist.get(c2, 0) + 1
+            if spec["n"] >= 2 and (ctx.thorough() or kind in ("offset", "roundtrip")):
+                todo.append((spec, kind, "mps+dmrg", ctx.rng.randrange(10 ** 6)))
     ctx.extra["qubit_id_families"] = id_hist
+    ctx.extra["noisy_sv_channels"] = noisy_hist
     for spec, kind, backend, seed in todo:
         try:
             r = metamorphic_case(ctx, spec, kind, backend, seed)
         except Exception as ex:  # noqa: BLE001
             ctx.violation(f"emu-{backend} raised on '{kind}': {type(ex).__name__}: {str(ex)[:200]}",
                           {"spec": spec, "transform": kind, "backend": backend, "seed": seed,
-                           "finding_key": f"{kind}-{backend}-raises"})
+                           "finding_key": key_name(kind, backend) + "-raises"})
+            # the remaining observables are still compared (Energy, Occupation, CorrelationMatrix, bitstrings, state)
+            LEAN[0] = True
+            try:
+                r = metamorphic_case(ctx, spec, kind, backend, seed)
+            except Exception:  # noqa: BLE001
+                continue
+            finally:
+                LEAN[0] = False
+            judge(ctx, spec, kind, backend, seed, r, lean=True)
             continue
         if r["relation"] and rel_ok:
             rel_ok, rel_detail = False, f"{kind}: {r['relation']} on {spec}"
-        worst[backend] = max(worst[backend], r["worst"])
-        worst_e[backend] = max(worst_e[backend], r["worst_energy"])
+        wk = "sv-noisy" if backend.startswith("sv+") else tol_key(backend)
+        worst[wk] = max(worst[wk], r["worst"])
+        worst_e[wk] = max(worst_e[wk], r["worst_energy"])
         if kind == "negate":
             neg["cases"] += 1
             neg["max_reference_error"] = max(neg["max_reference_error"], r["ref_error"])
@@ -571,9 +664,18 @@ def corpus_cases():
 def replay(ctx, path):
     rp = json.load(open(path))
     if "spec" in rp:
-        r = metamorphic_case(ctx, rp["spec"], rp["transform"], rp["backend"], rp["seed"])
+        LEAN[0] = bool(rp.get("lean"))
+        try:
+            r = metamorphic_case(ctx, rp["spec"], rp["transform"], rp["backend"], rp["seed"])
+        except Exception as ex:  # noqa: BLE001
+            print("replay raises:", type(ex).__name__, ex)
+            ctx.violation(f"replayed: emu-{rp['backend']} raised on '{rp['transform']}': {type(ex).__name__}",
+                          {k: rp[k] for k in ("spec", "transform", "backend", "seed")} | {"finding_key": rp.get("finding_key")})
+            return
+        finally:
+            LEAN[0] = False
         print("replay:", {k: r[k] for k in ("relation", "worst", "worst_energy", "text")})
-        judge(ctx, rp["spec"], rp["transform"], rp["backend"], rp["seed"], r)
+        judge(ctx, rp["spec"], rp["transform"], rp["backend"], rp["seed"], r, lean=bool(rp.get("lean")))
     elif "operator_case" in rp:
         dense = sv_dense if rp["backend"] == "sv" else mps_dense
         e = operator_check(rp["operator_case"], dense)
